@@ -141,6 +141,8 @@ pub enum Place {
     Mid { k: u16, f: f64 },
     Start,
     End,
+    /// grid point number min(i, m-1) (i = 1: the end of the first accepted step), shifted by DELTAS[delta]
+    NearIdx { i: u8, delta: u8 },
 }
 
 pub const DELTAS: [f64; 9] = [0.0, 1e-13, -1e-13, 5e-13, -5e-13, 2e-12, -2e-12, 1e-9, -1e-9];
@@ -183,6 +185,10 @@ pub fn resolve_places(pl: &[Place], grid: &[f64], sp: &Span) -> Vec<f64> {
             }
             Place::Start => sp.x0,
             Place::End => sp.xend,
+            Place::NearIdx { i, delta } => {
+                let g = if m > 0 { grid[(*i as usize).min(m - 1)] } else { sp.x0 };
+                clampf(g + d * DELTAS[*delta as usize % 9] * (1.0f64).max(g.abs() / 64.0))
+            }
         })
         .collect();
     v.sort_by(|a, b| (a * d).partial_cmp(&(b * d)).unwrap());
